@@ -162,6 +162,18 @@ CHECKS = {
              "changed, and exit 0 implies everything was formatted.",
         note="Process-death model with a coherent page cache (no power-loss reordering; flowmark does not fsync). Operations are observed at the Python audit-event / file-object level.",
         ref="DESIGN.md §2 C14"),
+    "C13": dict(
+        level="model_checking",
+        technique="explicit-state exploration of call histories (fresh process per sequence, state fingerprints) and stateless exploration of all thread schedules up to a preemption bound under a controlled scheduler",
+        text="Histories: every sequence of up to 2 (quick) / 3 (thorough) calls over 56 actions (14 setter/observer documents for each mutable "
+             "renderer, parser and wrapper field x 4 option sets) runs in a fresh forked process that never called flowmark; after every call the "
+             "output must equal the action's first-call-in-a-fresh-process baseline; process-wide mutable state is fingerprinted after every call. "
+             "Schedules: two threads, one reformat_text call each, on 4 colliding document pairs under a cooperative scheduler whose scheduling points "
+             "are all call events into flowmark/marko code (600-1500 per call): ALL schedules with one preemption, and in the thorough tier all "
+             "schedules with two preemptions at flowmark-function granularity; every thread's result must equal its solo result; sampled schedules "
+             "are replayed and must reproduce identically.",
+        note="Function-call granularity under the GIL; no weak-memory effects exist for pure-Python state. Lazily built caches are warmed before scheduling so that point counts are stable.",
+        ref="DESIGN.md §2 C13"),
     "C05": dict(
         level="model_checking",
         technique="explicit-state model of the greedy filler, exhaustive trace enumeration + replay of every trace against the implementation",
